@@ -23,7 +23,8 @@
 (* Sync info: [qc, tc, agg, aggqcs] = certified block or -2, TC view or -1, aggregate-QC view or -1, the blocks   *)
 (* certified by the QCs inside the aggregate QC.                                                            *)
 (* E (environment of a step): n, q, leaders, rs (ruleset), agg, reg (block registry: id -> view, parent, qc), *)
-(* avail (blocks a fetch returns in this step), newb (blocks that were created in this step).               *)
+(* avail (blocks a fetch returns in this step), newb (blocks that were created in this step), starved (views  *)
+(* in which the replica had no commands to propose in this step).                                          *)
 EXTENDS Integers, Sequences, FiniteSets, TLC
 
 LeaderOf(E, v) == IF v >= 1 /\ v <= Len(E.leaders) THEN E.leaders[v] ELSE 0
@@ -152,9 +153,13 @@ VerifyNew(E, s, qc, si) ==
          [] E.rs = "simplehotstuff" -> V(E, qc) >= V(E, s.lock)
          [] E.rs = "fasthotstuff" -> IF si.agg >= 0 THEN AggHigh(E, s, si.aggqcs) = qc ELSE s.view = V(E, qc) + 1
     /\ s.view > V(E, qc)
+\* E.starved: the views in which this replica, as leader, found no command batch in this step: CommandCache.Get blocks until the
+\* replica's view timer fires (the TimeoutEvent cancels the proposer's context when it is added), so nothing is proposed and the
+\* timeout event is queued behind what the step has queued so far.
 ProposeNew(E, s, si) ==
     IF ~MarkOK(E, s, s.hqc) THEN s ELSE
     LET s1 == [s EXCEPT !.lastProposed = s.view] IN
+    IF s.view \in E.starved THEN [s1 EXCEPT !.queue = Append(@, [type |-> "localtimeout", view |-> s.view])] ELSE
     IF si.qc = -2 THEN s1 ELSE                                                \* ProposeRule: no QC in the sync info
     IF ~VerifyNew(E, s1, si.qc, si) THEN s1 ELSE                                  \* Proposer.Propose: the own proposal must pass Voter.Verify
     LET cands == {i \in 1..Len(E.newb) : /\ E.newb[i].by = s.id /\ E.newb[i].view = s.view /\ E.newb[i].qc = si.qc
